@@ -231,7 +231,7 @@ func c09Run(t *testing.T, wl any, sc SchedCfg) *Result {
 					res.Violate("C09.exact-state", "the plugin's Synchronize handler did not receive exactly the runtime's state: %s (%s)", d, desc)
 				}
 			}
-			if !marker["syn"] {
+			if !marker["syn"] && regime != "cut" { // with a planned cut the connection may die between synchronization and the event
 				res.Violate("C09.activated", "synchronization succeeded but the plugin did not receive the following event (%s)", desc)
 			}
 			if len(cbUpd) != len(p1.SyncUpd) {
